@@ -12,7 +12,7 @@ EXTENDS Shader
 CtxKind(c) ==
   CASE c = "plain" -> "Block"
     [] c = "if_accept" -> "IfAccept"
-    [] c \in {"if_reject", "if_else_if"} -> "IfReject"
+    [] c \in {"if_reject", "if_else_if", "if_chain", "if_chain_long"} -> "IfReject"
     [] c \in {"switch_case", "switch_default", "switch_multi", "switch_after_default"} -> "Switch"
     [] c \in {"loop_body", "for_body", "while_body"} -> "LoopBody"
     [] OTHER -> "LoopContinuing"
